@@ -331,7 +331,8 @@ def collection_cell(P, A):
         ncs = P.get('ncs_ids')
         for j, kind in enumerate(kinds):
             fails = A.get('f%d' % j, False) if P.get('may_fail', True) else False
-            ref = x if fails else ids[P.get('refs', [0, 1, 2, 0])[j] % N]
+            refs = P.get('refs') or [0, 1, 2, 0]
+            ref = x if fails else ids[refs[j % len(refs)] % N]
             b = msg_builder(kind, ref, mids[j], new_id=A.get('n%d' % j))
             if ncs:
                 b = _with_ncs(b, ncs[j])
